@@ -139,7 +139,7 @@ class Check:
         os.makedirs(rdir, exist_ok=True)
         fname = os.path.join(rdir, '%s_%s.py' % (self.pid, hashlib.sha1(key.encode()).hexdigest()[:10]))
         with open(fname, 'w') as f:
-            f.write('# replay for %s key=%s\n# %s\n' % (self.pid, key, description.replace('\n', ' ')[:500]))
+            f.write('# replay for %s key=%s\n# %s\n' % (self.pid, ' '.join(key.splitlines()), ' '.join(description.splitlines())[:500]))
             f.write(replay_src)
         rc, out = run_replay(fname)
         if rc == 1:
@@ -167,7 +167,7 @@ class Check:
         os.makedirs(rdir, exist_ok=True)
         fname = os.path.join(rdir, '%s_%s_probe.py' % (self.pid, hashlib.sha1(key.encode()).hexdigest()[:10]))
         with open(fname, 'w') as f:
-            f.write('# concrete probe for %s key=%s\n# %s\n' % (self.pid, key, description.replace('\n', ' ')[:500]))
+            f.write('# concrete probe for %s key=%s\n# %s\n' % (self.pid, ' '.join(key.splitlines()), ' '.join(description.splitlines())[:500]))
             f.write(replay_src)
         rc, out = run_replay(fname)
         self.counters['concrete_probes'] = self.counters.get('concrete_probes', 0) + 1
